@@ -12,6 +12,79 @@ from sa.loader import AnalysisError
 
 CLIENT = "aiohttp/client.py"
 SENSITIVE = ("hdrs.AUTHORIZATION", "hdrs.COOKIE", "hdrs.PROXY_AUTHORIZATION")
+FOLLOWED = "resp.status in (301, 302, 303, 307, 308)"
+
+
+class _Redirect:
+    """The statements of the hop loop that run when the response is a redirect that is followed - whichever way the source says so:
+    nested  `if <status in S and allow_redirects>: BLOCK` (the block), or
+    guard   `if <not (status in S and allow_redirects)>: <leave>` followed by BLOCK (what comes after the guard in its block, plus its else).
+    `anchor` is the `if` statement in both forms; `edge` the branch of its test that enters the block."""
+
+    def __init__(self, anchor: ast.If, nested: bool):
+        self.anchor, self.nested = anchor, nested
+        if nested:
+            self.stmts = list(anchor.body)
+        else:
+            blk = PC._block_of(anchor) or []
+            self.stmts = list(anchor.orelse) + (blk[blk.index(anchor) + 1:] if anchor in blk else [])
+        self.edge = "T" if nested else "F"
+        self.scope = anchor if nested else ast.Module(body=self.stmts, type_ignores=[])
+
+    def walk(self):
+        if self.nested:
+            yield from ast.walk(self.anchor)
+        else:
+            for s in self.stmts:
+                yield from ast.walk(s)
+
+    def entry(self):
+        """CNF (as written) of the condition under which the block is entered"""
+        return norm.cnf_raw(self.anchor.test, self.nested)
+
+    def top(self, node):
+        """the statement of the block that is or contains `node` (None: outside)"""
+        n = node
+        while n is not None:
+            if any(n is s for s in self.stmts):
+                return n
+            n = getattr(n, "parent", None)
+        return None
+
+    def pc(self, node, raw: bool = False):
+        """path condition of `node` from the entry test inwards (the entry condition included, nothing of what precedes it)"""
+        if self.nested:
+            return PC.pc(node, stop=self.anchor, raw=raw)
+        top = self.top(node)
+        if top is None:
+            raise AnalysisError("C17: path condition asked for a statement outside the redirect block")
+        clauses = list(PC.pc(node, stop=top, raw=raw))
+        idx = [i for i, s in enumerate(self.stmts) if s is top][0]
+        PC._RAW[0] = raw
+        try:
+            for sib in self.stmts[:idx]:
+                clauses += PC.fallthrough(sib, node)
+            clauses += PC._cnf(self.anchor.test, False, node)
+        finally:
+            PC._RAW[0] = False
+        out = []
+        for c in clauses:
+            if c not in out:
+                out.append(c)
+        return PC.simplify(out)
+
+
+def _find_redirect(rq) -> _Redirect:
+    ifs = [i for i in ast.walk(rq.node) if isinstance(i, ast.If)]
+    for i in ifs:
+        # the guard: its test is false exactly when the status is one of the followed ones (and ...), and its body does not fall into the block
+        if any(l.pos and l.text == FOLLOWED for c in norm.cnf_raw(i.test, False) for l in c) and not any(l.pos and FOLLOWED in l.text for c in norm.cnf_raw(i.test, True) for l in c) \
+                and PC.terminates(i.body):
+            return _Redirect(i, False)
+    red = [i for i in ifs if FOLLOWED in norm.raw(i.test)]
+    if not red:
+        raise AnalysisError("C17: redirect branch not found in ClientSession._request")
+    return _Redirect(red[0], True)
 
 
 def run(chk):
@@ -30,28 +103,49 @@ def run(chk):
     chk.explanation += " Second hunt: the proxy gets no session-default Authorization/Cookie; a body-less request stays body-less on 301/302/307/308; Expect and a caller's Transfer-Encoding go with the dropped body; URL credentials and non-UTF-8 Locations raise ClientErrors; building an attempt does not consume the shared header mapping."
     rq = repo.func(CLIENT, "ClientSession._request")
     g = cfg_of(rq.node)
-    red = [i for i in ast.walk(rq.node) if isinstance(i, ast.If) and "resp.status in (301, 302, 303, 307, 308)" in norm.raw(i.test)]
-    if not red:
-        raise AnalysisError("C17: redirect branch not found in ClientSession._request")
-    red = red[0]
-    if {str(l) for l in PC.units(norm.cnf_raw(red.test, True))} == {"(resp.status in (301, 302, 303, 307, 308))", "(allow_redirects)"}:
+    reg = _find_redirect(rq)
+    red = reg.anchor
+    if {str(l) for l in PC.units(reg.entry())} == {"(resp.status in (301, 302, 303, 307, 308))", "(allow_redirects)"}:
         chk.ok("C17.entry", red, "redirects are followed for 301/302/303/307/308 when allow_redirects is set")
     else:
         chk.violation("C17.entry", red, norm.raw(red.test), "resp.status in (301, 302, 303, 307, 308) and allow_redirects", "the set of followed redirect statuses changed")
-    conts = [n for n in g.nodes if n.kind == "stmt" and isinstance(n.ast, ast.Continue) and any(x is red for x in prog.enclosing(n.ast, (ast.If,)))]
     rtest = [n for n in g.nodes if n.kind == "test" and n.ast is red.test]
-    if len(conts) != 1 or not rtest:
-        raise AnalysisError(f"C17: {len(conts)} redirect `continue` statements (1 confirmed)")
-
+    hop_start = [(r, reg.edge) for r in rtest]
+    loop = [w for w in ast.walk(rq.node) if isinstance(w, ast.While) and any(x is red for x in ast.walk(w))]
+    loop = loop[-1] if loop else None
+    if reg.nested:
+        conts = [n for n in g.nodes if n.kind == "stmt" and isinstance(n.ast, ast.Continue) and any(x is red for x in prog.enclosing(n.ast, (ast.If,)))]
+        nhops, falls = len(conts), False
+    else:
+        # the next hop is begun by a `continue` of the hop loop inside the block, or by running off the end of the loop body
+        conts = [n for n in g.nodes if n.kind == "stmt" and isinstance(n.ast, ast.Continue) and reg.top(n.ast) is not None and K.loop_ancestors(n.ast)[:1] == [loop]]
+        heads = [n for n in g.nodes if loop is not None and n.kind == "test" and n.ast is loop.test]
+        falls = bool(rtest) and g.find_path(None, lambda n: n in heads, lambda n: n in conts, EXPLICIT, hop_start) is not None
+        nhops = len(conts) + (1 if falls else 0)
+        if falls:
+            conts = conts + heads
+    if nhops != 1 or not rtest:
+        raise AnalysisError(f"C17: {nhops} redirect `continue` statements (1 confirmed)")
     # ---- strip ------------------------------------------------------------------------------------------------
-    def _origin_parts(e):
+    def _origin_parts(e, at=None, depth=0):
         """(base text, set of components) of one side of the comparison: `X.origin()` or a tuple of X.scheme / X.raw_host|host / X.port"""
         if isinstance(e, ast.Call) and isinstance(e.func, ast.Attribute) and e.func.attr == "origin":
             return norm.raw(e.func.value), {"scheme", "host", "netloc-port"}
         if isinstance(e, ast.Name):
-            vals = [v for _d, v in norm.fn_defs(rq.node).defs.get(e.id, []) if v is not None]
+            fd = norm.fn_defs(rq.node)
+            vals = [v for _d, v in fd.defs.get(e.id, []) if v is not None]
             if len(vals) == 1 and isinstance(vals[0], ast.Call) and isinstance(vals[0].func, ast.Attribute) and vals[0].func.attr == "origin":
                 return e.id, {"scheme", "host", "netloc-port"}
+            # a local that names one side: it stands for its only definition, provided that what it was computed from is not bound again
+            # between that definition and the comparison (else the key of an earlier URL would be compared)
+            ds = fd.defs.get(e.id, [])
+            if at is not None and depth < 2 and len(ds) == 1 and ds[0][1] is not None and not isinstance(ds[0][1], ast.Name):
+                d = ds[0][0]
+                b, comps = _origin_parts(ds[0][1], at, depth + 1)
+                if b is not None and b.isidentifier() and getattr(d, "lineno", 10**9) < at.lineno and any(x is loop for x in K.loop_ancestors(d)) \
+                        and not any(d.lineno <= getattr(x, "lineno", 0) <= at.lineno for x in fd.def_nodes(b) if x is not d):
+                    return b, comps
+            return None, set()
         if isinstance(e, ast.Call) and isinstance(e.func, ast.Name) and len(e.args) == 1 and not e.keywords:
             # a helper of the module that maps a URL to its origin key: `_origin_key(url)` returning (scheme', host', port) - each element
             # is computed from one component of the parameter (normalised: ws -> http, lower-cased host)
@@ -83,10 +177,10 @@ def run(chk):
         return None, set()
 
     oif = []
-    for i in ast.walk(red):
+    for i in reg.walk():
         if isinstance(i, ast.If) and isinstance(i.test, ast.Compare) and len(i.test.ops) == 1 and isinstance(i.test.ops[0], (ast.NotEq, ast.Eq)):
-            lb, lc = _origin_parts(i.test.left)
-            rb, rc = _origin_parts(i.test.comparators[0])
+            lb, lc = _origin_parts(i.test.left, i)
+            rb, rc = _origin_parts(i.test.comparators[0], i)
             if lb is not None and rb is not None and "url" in (lb, rb):
                 oif.append((i, lb, lc, rb, rc))
     if not oif:
@@ -114,24 +208,22 @@ def run(chk):
             chk.ok("C17.strip", o, "the cross-origin branch drops per-request cookies and removes Authorization, Cookie and Proxy-Authorization")
         onodes = [n for n in g.nodes if n.kind == "test" and n.ast is o.test]
         K.must_pass(chk, "C17.strip", rq, None, lambda n: n in onodes, "every path from the redirect status test to the next hop evaluates the origin comparison",
-                    start_edges=[(r, "T") for r in rtest], targets=lambda n: n in conts, construct="continue (next hop)", missing="if url.origin() != redirect_origin")
+                    start_edges=hop_start, targets=lambda n: n in conts, construct="continue (next hop)", missing="if url.origin() != redirect_origin")
         # the compared origin is that of the *final* target (after a scheme-less Location was joined)
         rname = right if right != "url" else left
         od = norm.fn_defs(rq.node).defs.get(rname, []) if rname.isidentifier() else []
-        joins = [s for s in ast.walk(red) if isinstance(s, ast.Assign) and "url.join(" in norm.raw(s.value)]
+        joins = [s for s in reg.walk() if isinstance(s, ast.Assign) and "url.join(" in norm.raw(s.value)]
         src = norm.raw(od[0][1]) if od and od[0][1] is not None else t
         tgt = src.split(".origin()")[0] if ".origin()" in src else None
         last_def = max((getattr(d, "lineno", 0) for d in norm.fn_defs(rq.node).def_nodes(tgt)), default=0) if tgt and tgt.isidentifier() else 0
         where = od[0][0].lineno if od else o.lineno
-        nxt = [s for s in ast.walk(red) if isinstance(s, ast.Assign) and norm.raw(s.targets[0]) == "url"]
+        nxt = [s for s in reg.walk() if isinstance(s, ast.Assign) and norm.raw(s.targets[0]) == "url"]
         if tgt and last_def and last_def < where and nxt and norm.raw(nxt[0].value) == tgt:
             chk.ok("C17.strip", od[0][0] if od else o, f"the compared origin is taken from `{tgt}` after its last (re)definition (relative/scheme-relative Locations already joined), and `{tgt}` is the next hop's URL")
         else:
             chk.violation("C17.strip", o, norm.raw(o.test), f"origin of the final target (defs of {tgt} end at line {last_def}, origin taken at {where})",
                           "the origin is computed before the Location is joined with the current URL, or for a different URL than the next hop's: `//other-host/` keeps the credentials")
     # ---- perhop ---------------------------------------------------------------------------------------------------
-    loop = [w for w in ast.walk(rq.node) if isinstance(w, ast.While) and any(x is red for x in ast.walk(w))]
-    loop = loop[-1] if loop else None
     for pat, why in (("self._cookie_jar.filter_cookies(url)", "jar cookies are selected for each hop's URL"), ("strip_auth_from_url(url)", "URL-embedded credentials are extracted per hop"),
                      ("self._request_class(...)", "a new request object is built for every hop")):
         hits = K.exprs(rq, pat)
@@ -177,7 +269,7 @@ def run(chk):
                               path=g.fmt_path(stale[1]))
         chk.expect_count("C17.perhop", n_fresh, 4, "locals derived from the hop URL")
     # ---- table ---------------------------------------------------------------------------------------------------------
-    rw = [i for i in ast.walk(red) if isinstance(i, ast.If) and "resp.status == 303" in norm.raw(i.test)]
+    rw = [i for i in reg.walk() if isinstance(i, ast.If) and "resp.status == 303" in norm.raw(i.test)]
     if not rw:
         chk.violation("C17.table", red, "if (resp.status == 303 and resp.method != HEAD) or (resp.status in (301, 302) and resp.method == POST)", "", "method rewriting guard not found")
     else:
@@ -259,17 +351,17 @@ def run(chk):
     for pat, what in (("redirects += 1", "hop counter"), ("history.append(resp)", "history record")):
         nodes = K.nodes_matching(rq, pat)
         if nodes:
-            K.must_pass(chk, "C17.limit", rq, None, lambda n, nodes=nodes: n in nodes, f"the {what} is updated on every path to the next hop", start_edges=[(r, "T") for r in rtest],
+            K.must_pass(chk, "C17.limit", rq, None, lambda n, nodes=nodes: n in nodes, f"the {what} is updated on every path to the next hop", start_edges=hop_start,
                         targets=lambda n: n in conts, construct="continue (next hop)", missing=pat)
         else:
             chk.violation("C17.limit", red, pat, "", f"{what} vanished")
-    tm = [n for n, c in K.raises_in(red) if c == "TooManyRedirects"]
-    redlits = {str(l) for l in PC.units(norm.cnf_raw(red.test, True))}
-    tmu = {str(l) for l in PC.units(PC.pc(tm[0], stop=red))} - redlits if tm else set()
+    tm = [n for n, c in K.raises_in(reg.scope) if c == "TooManyRedirects"]
+    redlits = {str(l) for l in PC.units(reg.entry())}
+    tmu = {str(l) for l in PC.units(reg.pc(tm[0]))} - redlits if tm else set()
     # besides the limit test itself only outcomes of earlier exits that did not fire (negative literals, e.g. "there is a Location") may occur
     if tm and {"(max_redirects)", "!(redirects < max_redirects)"} <= tmu and all(x.startswith("!(") for x in tmu - {"(max_redirects)"}):
         tn = [n for n in g.nodes if n.kind == "test" and "redirects >= max_redirects" in norm.raw(n.ast)]
-        K.must_pass(chk, "C17.limit", rq, None, lambda n: n in tn, "the max_redirects test is evaluated on every path to the next hop", start_edges=[(r, "T") for r in rtest],
+        K.must_pass(chk, "C17.limit", rq, None, lambda n: n in tn, "the max_redirects test is evaluated on every path to the next hop", start_edges=hop_start,
                     targets=lambda n: n in conts, construct="continue (next hop)", missing="if max_redirects and redirects >= max_redirects")
     else:
         chk.violation("C17.limit", red, "if max_redirects and redirects >= max_redirects: raise TooManyRedirects", "", "the redirect limit test changed (off by one, or not raised)")
@@ -277,7 +369,7 @@ def run(chk):
     noloc = [n for n in g.nodes if n.kind == "test" and n.in_finally_copy is None and "r_url is None" in norm.raw(n.ast) or (n.kind == "test" and norm.raw(n.ast) in ("r_url", "not r_url"))]
     hist = K.nodes_matching(rq, "history.append(resp)")
     if noloc and hist:
-        pth = g.find_path(None, lambda n: n in hist, lambda n: n in noloc, EXPLICIT, [(r, "T") for r in rtest])
+        pth = g.find_path(None, lambda n: n in hist, lambda n: n in noloc, EXPLICIT, hop_start)
         if pth is None:
             chk.ok("C17.limit", hist[0].ast, "a 30x without Location leaves the loop before it is counted, recorded in history or refused as a redirect")
         else:
@@ -286,13 +378,13 @@ def run(chk):
     else:
         chk.analysis_error("C17.limit: Location test / history record not found in the redirect branch")
     # the Location is validated completely inside the guard: with encoded=True yarl defers netloc validation to the first access
-    urls = [s for s in ast.walk(red) if isinstance(s, ast.Assign) and isinstance(s.value, ast.Call) and norm.raw(s.value.func) == "URL" and any(k.arg == "encoded" for k in s.value.keywords)]
+    urls = [s for s in reg.walk() if isinstance(s, ast.Assign) and isinstance(s.value, ast.Call) and norm.raw(s.value.func) == "URL" and any(k.arg == "encoded" for k in s.value.keywords)]
     for u in urls:
         tr = next((t for t in prog.enclosing(u, (ast.Try,)) if prog.in_body_of(u, t, "body") and any("ValueError" in PC.handler_types(h) for h in t.handlers)), None)
         tname = norm.raw(u.targets[0])
         # ... by an access that reads *this* value: after the assignment and before the name is bound again (fifth hunt: the Location is
         # re-parsed once its blanks are quoted, and an access behind the second parse said nothing about the first)
-        later = [s2.lineno for s2 in ast.walk(red) if isinstance(s2, ast.Assign) and s2 is not u and norm.raw(s2.targets[0]) == tname and s2.lineno > u.lineno]
+        later = [s2.lineno for s2 in reg.walk() if isinstance(s2, ast.Assign) and s2 is not u and norm.raw(s2.targets[0]) == tname and s2.lineno > u.lineno]
         upto = min(later) if later else 10**9
         forced = tr is not None and any(isinstance(n, ast.Attribute) and n.attr in ("port", "host", "authority", "explicit_port") and norm.raw(n.value) == tname and u.lineno < n.lineno < upto
                                         for st_ in tr.body for n in ast.walk(st_))
@@ -300,19 +392,19 @@ def run(chk):
             chk.ok("C17.entry", u, f"the redirect target `{tname}` has its netloc validated inside the ValueError guard")
         else:
             chk.violation("C17.entry", u, K.short(u, 70), f"{tname}.port inside the try", "with requote_redirect_url=False the Location is parsed with encoded=True, which defers netloc validation: `Location: http://b.test:abc/` passes every guard and the next hop raises a bare ValueError (not a ClientError) from server-controlled input")
-    hunt2_rules(chk, repo, rq, red)
-    hunt3_rules(chk, repo, rq, red)
-    hunt5_rules(chk, repo, rq, red)
+    hunt2_rules(chk, repo, rq, reg)
+    hunt3_rules(chk, repo, rq, reg)
+    hunt5_rules(chk, repo, rq, reg)
     round7_rules(chk, repo, rq)
-    inc = [s for s in ast.walk(red) if isinstance(s, ast.AugAssign) and norm.raw(s) == "redirects += 1"]
+    inc = [s for s in reg.walk() if isinstance(s, ast.AugAssign) and norm.raw(s) == "redirects += 1"]
     if inc and tm and inc[0].lineno < tm[0].lineno:
         chk.ok("C17.limit", inc[0], "the counter is incremented before it is compared (at most max_redirects requests)")
     # scheme filter: whatever collection the refusal tests membership in must be a constant equal to {http, https, ""} - a set that comes from
     # somewhere else (the connector's allowed schemes also admit ws / wss / tcp / unix for ws_connect() and connector URLs) lets such a
     # Location through as an ordinary HTTP hop
-    nh = [n for n, c in K.raises_in(red) if c == "NonHttpUrlRedirectClientError"]
-    nxt = [s for s in ast.walk(red) if isinstance(s, ast.Assign) and norm.raw(s.targets[0]) == "url"]
-    bset = PC.has_lit(PC.pc(nh[0], stop=red), "$S in $SET", False) if nh else None
+    nh = [n for n, c in K.raises_in(reg.scope) if c == "NonHttpUrlRedirectClientError"]
+    nxt = [s for s in reg.walk() if isinstance(s, ast.Assign) and norm.raw(s.targets[0]) == "url"]
+    bset = PC.has_lit(reg.pc(nh[0]), "$S in $SET", False) if nh else None
     schemes = None
     if bset is not None:
         try:
@@ -330,7 +422,7 @@ def run(chk):
         chk.ok("C17.limit", sd[0][0], "the tested scheme is the redirect target's")
     # ---- release (shared with C06) --------------------------------------------------------------------------------------------
     nr = nc = 0
-    for n in ast.walk(red):
+    for n in reg.walk():
         if isinstance(n, (ast.Raise, ast.Continue)):
             blk = PC._block_of(n)
             prior = blk[: blk.index(n)]
@@ -350,7 +442,23 @@ def run(chk):
                     chk.ok("C17.release", n, "the intermediate response is released before the next hop")
                 else:
                     chk.violation("C17.release", n, "continue", "resp.release()", "the intermediate response is not released before the next hop")
+    if not reg.nested and falls and reg.stmts:
+        # the next hop is begun by running off the end of the loop body: the statements of the block are what precedes that implicit `continue`
+        nc += 1
+        if any(M.contains(p, "resp.release()") for p in reg.stmts):
+            chk.ok("C17.release", reg.stmts[-1], "the intermediate response is released before the next hop")
+        else:
+            chk.violation("C17.release", reg.stmts[-1], "continue", "resp.release()", "the intermediate response is not released before the next hop")
     chk.expect_count("C17.release", nr, 5, "raise sites in the redirect branch")
+
+
+def _only_def(rq, e):
+    """the expression a local stands for when it is bound exactly once in the function (else the expression itself)"""
+    if isinstance(e, ast.Name):
+        ds = norm.fn_defs(rq.node).defs.get(e.id, [])
+        if len(ds) == 1 and ds[0][1] is not None:
+            return ds[0][1]
+    return e
 
 
 def _root_text(e) -> str:
@@ -395,27 +503,28 @@ def round7_rules(chk, repo, rq):
                       "_prepare_headers() can return the session's default header object itself, and _request() edits its result in place (headers[Authorization] = ..., headers.popall(...)): a header-less request to `http://user:pw@A/` leaves `Authorization: Basic ...` in the session defaults, and a later header-less request to an unrelated origin C carries the credentials that were given for A only; a cross-origin redirect deletes a session-level Authorization / Cookie default for good")
 
 
-def hunt5_rules(chk, repo, rq, red):
+def hunt5_rules(chk, repo, rq, reg):
     """Rules written after the fifth defect hunt (F297-F300)."""
+    red = reg.anchor
     DG = "aiohttp/client_middleware_digest_auth.py"
     # ---- C17.join.raw: a relative Location is resolved against the raw path of the current URL -----------------------------------------------------------
     # yarl's URL.join() merges a relative path with the *decoded* segments of a base whose path does not end in `/`: `/my%20docs/index` + `other`
     # becomes `/my docs/other` on the wire, `%2F` in the directory becomes a separator (another resource), `%0D%0A` raises a bare ValueError.
-    joins = [c for c in ast.walk(red) if isinstance(c, ast.Call) and isinstance(c.func, ast.Attribute) and c.func.attr == "join" and c.args and not isinstance(c.func.value, ast.Constant)]
+    joins = [c for c in reg.walk() if isinstance(c, ast.Call) and isinstance(c.func, ast.Attribute) and c.func.attr == "join" and c.args and not isinstance(c.func.value, ast.Constant)]
     if not joins:
         chk.analysis_error("C17.join.raw: no `<base>.join(<Location>)` found in the redirect branch")
     for c in joins:
         base = c.func.value
         vals = [v for _d, v in norm.fn_defs(rq.node).defs.get(base.id, []) if v is not None] if isinstance(base, ast.Name) else []
         raw_based = [v for v in vals if isinstance(v, ast.Call) and isinstance(v.func, ast.Attribute) and v.func.attr == "with_path" and any(k.arg == "encoded" and isinstance(k.value, ast.Constant) and k.value.value is True for k in v.keywords)]
-        if raw_based and any(isinstance(a, ast.Assign) and a.value is raw_based[0] and any("startswith('/')" in norm.raw(i.test) or 'startswith("/")' in norm.raw(i.test) for i in prog.enclosing(a, (ast.If,))) for a in ast.walk(red)):
+        if raw_based and any(isinstance(a, ast.Assign) and a.value is raw_based[0] and any("startswith('/')" in norm.raw(i.test) or 'startswith("/")' in norm.raw(i.test) for i in prog.enclosing(a, (ast.If,))) for a in reg.walk()):
             chk.ok("C17.join.raw", c, "a Location with a relative path is joined to a base whose last raw path segment was cut off (encoded=True): yarl merges raw texts, dot segments are still resolved")
         else:
             chk.violation("C17.join.raw", c, K.short(c), "base_url = url.with_path(url.raw_path[: url.raw_path.rfind('/') + 1], encoded=True) for a relative path",
                           "a relative Location is joined to the hop URL itself: yarl merges it with the percent-decoded segments - `GET /my%20docs/index` answered `302 Location: other` puts `GET /my docs/other HTTP/1.1` on the wire, a `%2F` of the directory becomes a path separator (another resource is requested) and `%0D%0A` makes session.get() raise a bare ValueError")
     # ---- C17.entry.requoted: a Location that is re-parsed after its blanks were quoted is validated again ---------------------------------------------------
     nre = 0
-    for a in ast.walk(red):
+    for a in reg.walk():
         if isinstance(a, ast.Assign) and norm.raw(a.targets[0]) == "parsed_redirect_url" and isinstance(a.value, ast.Call) and norm.raw(a.value.func) == "URL" and a.value.args and ".replace(" in norm.raw(a.value.args[0]):
             nre += 1
             blk = PC._block_of(a) or []
@@ -430,9 +539,11 @@ def hunt5_rules(chk, repo, rq, red):
     chk.expect_count("C17.entry.requoted", nre, 1, "re-parses of a Location whose blanks were quoted")
     # ---- C17.strip.norm: the two origins are compared in normal form ----------------------------------------------------------------------------------------
     mod_txt = ""
-    for i in ast.walk(red):
-        if isinstance(i, ast.If) and isinstance(i.test, ast.Compare) and any(isinstance(x, ast.Call) and isinstance(x.func, ast.Name) for x in (i.test.left, i.test.comparators[0])):
-            for x in (i.test.left, i.test.comparators[0]):
+    for i in reg.walk():
+        # (a side may be named by a local: it stands for its only definition in _request)
+        sides = [_only_def(rq, x) for x in (i.test.left, i.test.comparators[0])] if isinstance(i, ast.If) and isinstance(i.test, ast.Compare) else []
+        if sides and any(isinstance(x, ast.Call) and isinstance(x.func, ast.Name) for x in sides):
+            for x in sides:
                 r_ = repo.resolve_name(rq.module, x.func.id) if isinstance(x, ast.Call) and isinstance(x.func, ast.Name) else None
                 if r_ and r_[0] == "func":
                     mod_txt += norm.raw(r_[1].node)
@@ -457,8 +568,9 @@ def hunt5_rules(chk, repo, rq, red):
         chk.violation("C17.strip.digest", ovals[0], K.short(ovals[0]), "(url.scheme, url.raw_host.lower(), url.port)", "the origin the digest credentials are scoped to is not (scheme, lower-cased host, effective port)")
 
 
-def hunt3_rules(chk, repo, rq, red):
+def hunt3_rules(chk, repo, rq, reg):
     """Rules written after the third defect hunt (F200-F202)."""
+    red = reg.anchor
     import re as _re
     folder = Folder(repo)
     mod = repo.module(CLIENT)
@@ -484,7 +596,7 @@ def hunt3_rules(chk, repo, rq, red):
     else:
         chk.ok("C17.history", hp, "ClientResponse.history is read from _history each time (not cached before it is set)")
     # ---- C17.entry: a Location that is taken as it is must fit in a request line -----------------------------------------------------------------------
-    urls = [s_ for s_ in ast.walk(red) if isinstance(s_, ast.Assign) and isinstance(s_.value, ast.Call) and norm.raw(s_.value.func) == "URL" and any(k.arg == "encoded" for k in s_.value.keywords)]
+    urls = [s_ for s_ in reg.walk() if isinstance(s_, ast.Assign) and isinstance(s_.value, ast.Call) and norm.raw(s_.value.func) == "URL" and any(k.arg == "encoded" for k in s_.value.keywords)]
     for u in urls:
         src = _root_text(u.value.args[0]) if u.value.args else ""
         tr = next((t for t in prog.enclosing(u, (ast.Try,)) if prog.in_body_of(u, t, "body") and any("ValueError" in PC.handler_types(h) for h in t.handlers)), None)
@@ -551,12 +663,13 @@ def hunt3_rules(chk, repo, rq, red):
             chk.violation("C17.entry", gate[0], f"{norm.raw(gate[1])} = {rx.pattern!r}", f"refuse {missed}; accept {over}", "the control-character gate of a verbatim Location does not cover CTLs / refuses plain URLs")
 
 
-def hunt2_rules(chk, repo, rq, red):
+def hunt2_rules(chk, repo, rq, reg):
     """Rules written after the second defect hunt (F109-F114)."""
+    red = reg.anchor
     # ---- C17.entry: everything server-controlled input can make raise is converted to a ClientError --------------------------------------
     # (a) the raw Location text is checked for encodability inside the guard (bytes that are not UTF-8 arrive surrogate-escaped and only
     #     fail when the next hop serialises the URL)
-    urls = [s for s in ast.walk(red) if isinstance(s, ast.Assign) and isinstance(s.value, ast.Call) and norm.raw(s.value.func) == "URL" and any(k.arg == "encoded" for k in s.value.keywords)]
+    urls = [s for s in reg.walk() if isinstance(s, ast.Assign) and isinstance(s.value, ast.Call) and norm.raw(s.value.func) == "URL" and any(k.arg == "encoded" for k in s.value.keywords)]
     for u in urls:
         src = _root_text(u.value.args[0]) if u.value.args else ""
         tr = next((t for t in prog.enclosing(u, (ast.Try,)) if prog.in_body_of(u, t, "body") and any("ValueError" in PC.handler_types(h) for h in t.handlers)), None)
